@@ -687,6 +687,9 @@ class SimContext:
         if sim.tz is not None:
             os.environ["TZ"] = sim.tz
             _real_time.tzset()
+        # glibc's mktime keeps a hidden static guess (the UTC offset found by the previous call) that decides
+        # which epoch an ambiguous local time maps to: prime it so a run does not depend on earlier runs
+        _real_time.mktime((2001, 1, 1, 12, 0, 0, 0, 1, -1))
         # wall clock
         try:
             import time_machine
